@@ -300,7 +300,7 @@ func aggregatedLiteralOK(c *Ctx, fn *ssa.Function, sink ssa.Instruction, lit ssa
 	if sig == nil {
 		return false, "literal has no Signature"
 	}
-	sigv := stripConv(sig)
+	sigv := stripConv(resolvePhiAt(stripConv(sig), sink))
 	// find VerifyRecovered(_, msg, sig)
 	for _, ci := range callsIn(fn, func(ci ssa.CallInstruction) bool {
 		return ci.Common().IsInvoke() && ci.Common().Method.Name() == "VerifyRecovered"
@@ -693,7 +693,9 @@ func ruleRandomness(c *Ctx, rule string) {
 				ok = true
 			}
 		}
-		for _, ci := range callsIn(f, func(ci ssa.CallInstruction) bool { return strings.HasSuffix(calleeName(ci), "common.Beacon).Randomness") }) {
+		for _, ci := range callsIn(f, func(ci ssa.CallInstruction) bool {
+			return strings.HasSuffix(calleeName(ci), "common.Beacon).Randomness")
+		}) {
 			if ci.Common().Args[0] == ssa.Value(f.Params[0]) {
 				ok = true
 			}
@@ -762,7 +764,9 @@ func ruleRequestedRound(c *Ctx, rule string) {
 	// the response is beaconToProto(x): every definition of x is Get(_, wanted), a receive from a channel fed under
 	// `b.GetRound() == wanted`, or Last() only where wanted == 0 / wanted is not > 0
 	var resp *ssa.Call
-	for _, ci := range callsIn(fn, func(ci ssa.CallInstruction) bool { return strings.HasSuffix(calleeName(ci), "internal/core.beaconToProto") }) {
+	for _, ci := range callsIn(fn, func(ci ssa.CallInstruction) bool {
+		return strings.HasSuffix(calleeName(ci), "internal/core.beaconToProto")
+	}) {
 		resp = ci.(*ssa.Call)
 	}
 	if resp == nil {
@@ -845,8 +849,9 @@ func lastOnlyForZero(fn *ssa.Function, at, phiBlock *ssa.BasicBlock, isWanted fu
 		}
 		cond, truth, ok := edgeCond(e)
 		if ok {
-			if b, okb := cond.(*ssa.BinOp); okb && b.Op == token.GTR && !truth && isWanted(b.X) {
-				if k, okk := constInt(b.Y); okk && k == 0 {
+			// wanted <= 0 in any spelling
+			if lo, hi, strict, okc := ordForm(cond, truth); okc && isWanted(lo) {
+				if k, okk := constInt(hi); okk && ((!strict && k == 0) || (strict && k == 1)) {
 					return true
 				}
 			}
